@@ -30,6 +30,7 @@ CONSTANTS Users,        \* abstract user names, e.g. {"u1","u2","u3"}
           SessUser,     \* [Sessions -> Users]
           Topics,       \* all projected topic names: group topics and p2p topics ("p12" = the topic of u1 and u2)
           RootSessions, \* sessions logged in at root level: they may act on behalf of other users; their steps are not modelled
+          P2PUsers,     \* [Topics -> set of the two participants] for p2p topics ({} for group topics)
           GrpTopics,    \* the group topics among them: only these are MODELLED by Step (p2p steps are judged by the monitors only)
           MaxSubs,      \* configured subscriber limit
           DEV_NewSubWantO,          \* a first-time subscriber may request O in want
@@ -40,6 +41,7 @@ CONSTANTS Users,        \* abstract user names, e.g. {"u1","u2","u3"}
           DEV_OfflineSetSubBypassesCache, \* a detached user's {set sub} is written to the store behind a loaded topic's back
           DEV_AdminSelfRaise        \* placeholder for seeded variants; FALSE = as pinned
 
+IsP2P(t) == t \notin GrpTopics
 T(m) == SelectSeq(Letters, LAMBDA c : c \in m)
 M(tp) == ToSet(tp)
 Eff(r) == M(r.want) \cap M(r.given)
@@ -110,10 +112,20 @@ Evict(S, t, u, unsub) ==
   LET c == S.cache[t]
       mine == {x \in M(c.att) : x.u = u} IN
   [S EXCEPT !.cache[t].att = AttTuple(M(c.att) \ mine),
-            !.cache[t].per[u] = IF unsub THEN NoPer ELSE IF c.per[u].in THEN [@ EXCEPT !.online = 0] ELSE @,
+            !.cache[t].per[u] = IF unsub THEN (IF IsP2P(t) THEN (IF c.per[u].in THEN [@ EXCEPT !.online = 0, !.deleted = TRUE] ELSE @) ELSE NoPer)
+                                ELSE IF c.per[u].in THEN [@ EXCEPT !.online = 0] ELSE @,
             !.sess = [s \in Sessions |-> IF \E x \in mine : x.s = s
                                           THEN [S.sess[s] EXCEPT !.subs = SubsTuple(M(@) \ {t})]
                                           ELSE S.sess[s]]]
+
+\* hard delete of a topic: rows, messages, log, live topic and every session's attachment
+DeleteTopic(S, t) ==
+  [S EXCEPT !.topics[t] = NoTopic,
+            !.subs[t] = [u \in Users |-> NoSub],
+            !.msgs[t] = <<>>,
+            !.dlog[t] = <<>>,
+            !.cache[t] = Unloaded,
+            !.sess = [x \in Sessions |-> [S.sess[x] EXCEPT !.subs = SubsTuple(M(@) \ {t})]]]
 
 Attach(S, t, s) ==
   LET u == SessUser[s] IN
@@ -209,10 +221,87 @@ ThisUserSub(S, t, u, modeTxt) ==
        ELSE IF "J" \notin given1 THEN [st |-> S2, code |-> 403, chg |-> changed]
        ELSE [st |-> S2, code |-> 0, chg |-> changed]
 
+\* ---------------------------------------------------------------- p2p topics (initTopicP2P + the p2p branches of thisUserSub)
+Other(t, u) == CHOOSE v \in P2PUsers[t] : v # u
+P2PMask(m) == (m \cap CP2P) \cup {"A"}
+LiveP2P(S, t) == {u \in P2PUsers[t] : S.subs[t][u].st = "live"}
+PerFromRow(r) == [NoPer EXCEPT !.in = TRUE, !.want = r.want, !.given = r.given, !.read = r.read, !.recv = r.recv, !.delId = r.delId]
+FreshRow(want, given) == [st |-> "live", want |-> T(want), given |-> T(given), read |-> 0, recv |-> 0, delId |-> 0]
+
+\* load (or create) the p2p topic on behalf of requester u with the {sub}'s mode text; returns [st, code (0 = ok), newsub]
+P2PLoad(S, t, u, modeTxt) ==
+  LET live == LiveP2P(S, t)
+      exists == S.topics[t].exists
+      base == [loaded |-> TRUE, last |-> S.topics[t].seq, del |-> S.topics[t].delId, owner |-> "", auth |-> <<>>, anon |-> <<>>,
+               per |-> [v \in Users |-> NoPer], att |-> <<>>]
+  IN
+  IF exists /\ Cardinality(live) = 2 THEN
+     [st |-> [S EXCEPT !.cache[t] = [base EXCEPT !.per = [v \in Users |-> IF v \in live THEN PerFromRow(S.subs[t][v]) ELSE NoPer]]],
+      code |-> 0, newsub |-> FALSE]
+  ELSE IF exists /\ live = {} THEN [st |-> S, code |-> 500, newsub |-> FALSE]
+  ELSE IF u \notin P2PUsers[t] THEN [st |-> S, code |-> 404, newsub |-> FALSE]
+  ELSE
+     LET o == Other(t, u)
+         make1 == ~exists \/ u \notin live
+         make2 == ~exists \/ o \notin live
+         pm == IF modeTxt = <<"-">> THEN [ok |-> TRUE, m |-> Unset] ELSE Parse(modeTxt)
+         row2 == IF make2 THEN FreshRow(P2PMask(CAuth), P2PMask(CAuth)) ELSE S.subs[t][o]
+         want1 == IF modeTxt = <<"-">> THEN M(row2.given)
+                  ELSE (IF pm.ok /\ pm.m # Unset THEN P2PMask(Mask(pm.m)) ELSE P2PMask(M(row2.given))) \cup {"J"}
+         row1 == IF make1 THEN FreshRow(want1, P2PMask(CAuth)) ELSE S.subs[t][u]
+         S1 == [S EXCEPT !.topics[t] = IF exists THEN @ ELSE [NoTopic EXCEPT !.exists = TRUE],
+                         !.subs[t][u] = row1, !.subs[t][o] = row2,
+                         !.cache[t] = [base EXCEPT !.per = [v \in Users |-> IF v = u THEN PerFromRow(row1) ELSE IF v = o THEN PerFromRow(row2) ELSE NoPer]]]
+     IN [st |-> S1, code |-> 0, newsub |-> make1]
+
+\* thisUserSub on a loaded p2p topic
+P2PThisUserSub(S, t, u, modeTxt) ==
+  LET c == S.cache[t]
+      pud == c.per[u]
+      pm == IF modeTxt = <<"-">> THEN [ok |-> TRUE, m |-> Unset] ELSE Parse(modeTxt)
+      mw == IF pm.m = Unset THEN Unset ELSE Mask(pm.m)
+  IN
+  IF ~pm.ok THEN [st |-> S, code |-> 400, chg |-> FALSE]
+  ELSE IF ~pud.in \/ pud.deleted THEN
+     \* third user, or a participant whose subscription was deleted while the topic stayed loaded
+     LET want == P2PMask(IF mw = Unset THEN M(pud.want) ELSE mw)
+         given == M(pud.given)
+     IN IF "J" \notin given THEN [st |-> S, code |-> 403, chg |-> FALSE]
+        ELSE LET S1 == [S EXCEPT !.subs[t][u] = FreshRow(want, given),
+                                 !.cache[t].per[u] = [NoPer EXCEPT !.in = TRUE, !.want = T(want), !.given = T(given)]]
+             IN IF "J" \notin want THEN [st |-> Evict(S1, t, u, FALSE), code |-> 0, chg |-> TRUE]
+                ELSE [st |-> S1, code |-> 0, chg |-> TRUE]
+  ELSE
+     LET oldWant == M(pud.want)  oldGiven == M(pud.given) IN
+     IF mw # Unset /\ "O" \in mw THEN [st |-> S, code |-> 403, chg |-> FALSE]      \* checked before the p2p mask
+     ELSE LET want1 == IF mw = Unset THEN (IF "J" \notin oldWant THEN oldGiven \cup CP2P ELSE oldWant) ELSE P2PMask(mw)
+              changed == want1 # oldWant
+              banned == "J" \notin oldGiven
+              S1 == [S EXCEPT !.subs[t][u].want = IF changed THEN T(want1) ELSE @,
+                              !.cache[t].per[u].want = T(want1)]
+          IN IF banned /\ ~DEV_BannedUpdateApplied THEN [st |-> S, code |-> 403, chg |-> FALSE]
+             ELSE IF "J" \notin want1 THEN [st |-> Evict(S1, t, u, FALSE), code |-> 0, chg |-> changed]
+             ELSE IF banned THEN [st |-> S1, code |-> 403, chg |-> changed]
+             ELSE [st |-> S1, code |-> 0, chg |-> changed]
+
+P2PSubStep(S, a) ==
+  LET t == a.t  s == a.s  u == SessUser[s] IN
+  IF t \in M(S.sess[s].subs) THEN Reply(S, 304)
+  ELSE LET l == IF S.cache[t].loaded THEN [st |-> S, code |-> 0, newsub |-> FALSE] ELSE P2PLoad(S, t, u, a.mode) IN
+       IF l.code # 0 THEN Reply(l.st, l.code)
+       ELSE LET r == P2PThisUserSub(l.st, t, u, a.mode)
+                pud == r.st.cache[t].per[u]
+                isNew == l.newsub \/ ~l.st.cache[t].per[u].in \/ l.st.cache[t].per[u].deleted
+                joined == r.code = 0 /\ pud.in /\ ((r.chg \/ isNew) => "J" \in Eff(pud))
+            IN IF r.code # 0 THEN Reply(r.st, r.code)
+               ELSE IF joined THEN Reply(Attach(r.st, t, s), 200)
+               ELSE Reply(r.st, 200)
+
 \* ---------------------------------------------------------------- Sub  ({sub} to an existing group topic)
 SubStep(S, a) ==
   LET t == a.t  s == a.s  u == SessUser[s] IN
-  IF t \in M(S.sess[s].subs) THEN Reply(S, 304)                     \* session.subscribe: already subscribed
+  IF IsP2P(t) THEN P2PSubStep(S, a)
+  ELSE IF t \in M(S.sess[s].subs) THEN Reply(S, 304)                     \* session.subscribe: already subscribed
   ELSE IF ~S.topics[t].exists THEN Reply(S, 404)                     \* topicInit: ErrTopicNotFound
   ELSE LET S0 == Load(S, t)
            r == ThisUserSub(S0, t, u, a.mode)
@@ -227,14 +316,20 @@ LeaveStep(S, a) ==
   LET t == a.t  s == a.s  u == SessUser[s]  c == S.cache[t] IN
   IF t \notin M(S.sess[s].subs) THEN (IF a.unsub THEN Reply(S, 409) ELSE Reply(S, 304))
   ELSE IF ~a.unsub THEN Reply(Detach(S, t, s), 200)
-  ELSE IF c.owner = u THEN Reply(S, 403)                            \* owner cannot unsubscribe
+  ELSE IF ~IsP2P(t) /\ c.owner = u THEN Reply(S, 403)               \* owner cannot unsubscribe
   ELSE IF S.subs[t][u].st # "live" THEN Reply(S, 304)               \* ErrNotFound from the store: InfoNoAction
-  ELSE Reply(Evict(UnsubRow(S, t, u), t, u, TRUE), 200)
+  ELSE LET S1 == Evict(UnsubRow(S, t, u), t, u, TRUE) IN
+       \* the last participant of a p2p topic leaving deletes the whole topic (hub.topicUnreg with del=true)
+       IF IsP2P(t) /\ LiveP2P(S1, t) = {} THEN Reply(DeleteTopic(S1, t), 200) ELSE Reply(S1, 200)
 
 \* ---------------------------------------------------------------- {set sub} by the user for themselves, session attached
 SetSelfStep(S, a) ==
   LET t == a.t  s == a.s  u == SessUser[s] IN
-  IF t \notin M(S.sess[s].subs) THEN
+  IF IsP2P(t) THEN
+     (IF t \notin M(S.sess[s].subs) THEN Reply(S, -1)         \* offline path on p2p topics: not modelled
+      ELSE LET r == P2PThisUserSub(S, t, u, a.mode) IN
+           IF r.code # 0 THEN Reply(r.st, r.code) ELSE IF r.chg THEN Reply(r.st, 200) ELSE Reply(r.st, 304))
+  ELSE IF t \notin M(S.sess[s].subs) THEN
      \* hub.meta -> replyOfflineTopicSetSub: store only, even when the topic is loaded (DEV_OfflineSetSubBypassesCache)
      LET row == S.subs[t][u]
          pm == Parse(a.mode)
@@ -259,7 +354,8 @@ SetSelfStep(S, a) ==
 \* ---------------------------------------------------------------- {set sub user=X} : anotherUserSub
 SetOtherStep(S, a) ==
   LET t == a.t  s == a.s  u == SessUser[s]  x == a.u  c == S.cache[t] IN
-  IF t \notin M(S.sess[s].subs) THEN Reply(S, -1)
+  IF IsP2P(t) THEN Reply(S, -1)                               \* {set sub user=X} on p2p topics: judged by the monitors only
+  ELSE IF t \notin M(S.sess[s].subs) THEN Reply(S, -1)
   ELSE IF x = u THEN SetSelfStep(S, a)
   ELSE
   LET host == c.per[u]
@@ -296,7 +392,8 @@ SetOtherStep(S, a) ==
 \* ---------------------------------------------------------------- {del what=sub user=X}
 DelSubStep(S, a) ==
   LET t == a.t  s == a.s  u == SessUser[s]  x == a.u  c == S.cache[t] IN
-  IF t \notin M(S.sess[s].subs) THEN Reply(S, 409)
+  IF IsP2P(t) THEN Reply(S, -1)
+  ELSE IF t \notin M(S.sess[s].subs) THEN Reply(S, 409)
   ELSE IF ~IsAdmin(Eff(c.per[u])) \/ x = u THEN Reply(S, 403)
   ELSE IF ~c.per[x].in THEN Reply(S, 304)
   ELSE IF "O" \in Eff(c.per[x]) \/ "J" \notin M(c.per[x].want) THEN Reply(S, 403)
@@ -305,17 +402,21 @@ DelSubStep(S, a) ==
 \* ---------------------------------------------------------------- {del what=topic}
 \* hub.topicUnreg: owner of a loaded topic deletes it for everybody; anybody else on a loaded topic = leave+unsub;
 \* unloaded topic: owner deletes, a subscriber unsubscribes, others get 304/403
-DeleteTopic(S, t) ==
-  [S EXCEPT !.topics[t] = NoTopic,
-            !.subs[t] = [u \in Users |-> NoSub],
-            !.msgs[t] = <<>>,
-            !.dlog[t] = <<>>,
-            !.cache[t] = Unloaded,
-            !.sess = [x \in Sessions |-> [S.sess[x] EXCEPT !.subs = SubsTuple(M(@) \ {t})]]]
-
 DelTopicStep(S, a) ==
   LET t == a.t  s == a.s  u == SessUser[s]  c == S.cache[t] IN
-  IF ~S.topics[t].exists THEN Reply(S, 304)
+  IF IsP2P(t) THEN
+     (IF ~S.topics[t].exists THEN Reply(S, 304)
+      ELSE IF c.loaded THEN
+         \* fewer than two live participants: ANY requester's {del topic} removes the whole topic (hub.topicUnreg case 1.1.1)
+         (IF Cardinality({v \in Users : c.per[v].in /\ ~c.per[v].deleted}) < 2 THEN Reply(DeleteTopic(S, t), 200)
+          ELSE IF S.subs[t][u].st # "live" THEN Reply(S, 304)
+          ELSE Reply(Evict(UnsubRow(S, t, u), t, u, TRUE), 200))
+      ELSE LET live == LiveP2P(S, t) IN
+           IF live = {} THEN Reply(DeleteTopic(S, t), 304)
+           ELSE IF u \notin live THEN Reply(S, 304)
+           ELSE IF Cardinality(live) < 2 THEN Reply(DeleteTopic(S, t), 200)
+           ELSE Reply(UnsubRow(S, t, u), 200))
+  ELSE IF ~S.topics[t].exists THEN Reply(S, 304)
   ELSE IF c.loaded THEN
      IF c.owner = u THEN Reply(DeleteTopic(S, t), 200)
      ELSE IF S.subs[t][u].st # "live" THEN Reply(S, 304)
@@ -441,7 +542,7 @@ DisconnectStep(S, a) ==
 \* ---------------------------------------------------------------- observation requests: no state change
 GetStep(S, a) == Reply(S, -2)     \* -2: the reply of an observation request is not predicted (its content is judged by the monitors)
 
-Unmodelled(a) == ("t" \in DOMAIN a /\ a.t \notin GrpTopics) \/ ("obo" \in DOMAIN a /\ a.obo # "")
+Unmodelled(a) == ("obo" \in DOMAIN a /\ a.obo # "")
                  \/ ("s" \in DOMAIN a /\ a.s \in RootSessions)
 Step(S, a) ==
   CASE Unmodelled(a)      -> Reply(S, -1)
